@@ -21,9 +21,9 @@ SPECDIR = os.path.join(vlib.SPEC, 'query')
 BOUNDS = {
     # writer: (entries, batches, entries on inputs outside the property's domain: error marker / EOF marker inside a batch)
     'quick': {'streams': (5, 3, 3), 'matrix': (5, 3, 3), 'tail': (3, 2, 3), 'vector': (3, 2, 3),
-              'labels': (4, 3, 4), 'tags': (4, 3, 4), 'trace': (4, 3, 4)},
+              'labels': (4, 3, 4), 'tags': (4, 3, 4), 'trace': (4, 3, 4), 'traceql': (4, 4, 0)},
     'thorough': {'streams': (6, 3, 4), 'matrix': (6, 3, 4), 'tail': (5, 3, 4), 'vector': (4, 3, 4),
-                 'labels': (6, 4, 6), 'tags': (6, 4, 6), 'trace': (6, 4, 6)},
+                 'labels': (6, 4, 6), 'tags': (6, 4, 6), 'trace': (6, 4, 6), 'traceql': (6, 5, 0)},
 }
 SMALL = {w: (2, 2, 2) for w in BOUNDS['quick']}
 
@@ -218,7 +218,7 @@ def run(tier):
         full = 120 if tier == 'quick' else 2500
         tails = 400 if tier == 'quick' else 4000
         r = vlib.run_cmd([binp, 'run', '-cases', cp, '-out', op, '-seed', str(vlib.seed()), '-full', str(full), '-tail', str(tails)],
-                         timeout=300 if tier == 'quick' else 2400)
+                         timeout=900 if tier == 'quick' else 2400)
         if not os.path.exists(op):
             raise vlib.Infra('c15 driver failed (rc=%s): %s' % (r.returncode, (r.stdout + r.stderr)[-3000:]))
         out = json.load(open(op))
@@ -261,8 +261,15 @@ def run(tier):
         want = sum(1 for c in cases if c['w'] in ('streams', 'matrix', 'vector'))
         if stats.get('cases_streams', 0) + stats.get('cases_matrix', 0) + stats.get('cases_vector', 0) != want:
             raise vlib.Infra('driver replayed %d of %d series cases' % (replayed, want))
+        want_tq = sum(1 for c in cases if c['w'] == 'traceql')
+        if stats.get('traceql_spec_cases', 0) != want_tq:
+            raise vlib.Infra('driver replayed %d of %d traceql batch cases' % (stats.get('traceql_spec_cases', 0), want_tq))
         for k_, least in (('prom_ok', 50), ('list_ok', 100), ('fullstack_ok', 50), ('cases_tail', 50)):
             if stats.get(k_, 0) < least:
+                raise vlib.Infra('vacuous: %s = %d (< %d)' % (k_, stats.get(k_, 0), least))
+        # counters of PASSED cases of one class: a real violation of that class empties them, so judged only on a clean run
+        for k_, least in (('traceql_emptybatch_mixed_ok', 30), ('trace_attr_double_ok', 100), ('trace_attr_int_ok', 100)):
+            if not viols and stats.get(k_, 0) < least:
                 raise vlib.Infra('vacuous: %s = %d (< %d)' % (k_, stats.get(k_, 0), least))
         if stats.get('nontrivial_ok', 0) < 100:
             raise vlib.Infra('vacuous: only %d non-trivial cases passed' % stats.get('nontrivial_ok', 0))
@@ -292,6 +299,12 @@ def run(tier):
                     'stored strings that are not valid UTF-8 cannot be represented in JSON: the check accepts what encoding/json '
                     'decodes (U+FFFD per invalid byte); raw invalid bytes in the body are counted, not judged',
                     'series label documents handed to the series endpoint are valid JSON objects (as the writer stores them)',
-                    'SearchTraceQL / TagsV2 / ValuesV2 (encoding/json.Marshal of a whole value) and the protobuf branch of Trace are not covered']}
+                    'the TraceQL branch of Search is driven through the ITempoService seam: the real TempoService with SearchTraceQL '
+                    'replaced by a producer that delivers exactly the batches of the case (the real producers send one-trace batches '
+                    'or one batch; the property quantifies over all batchings); its traces carry finite durations (json.Marshal '
+                    'rejects NaN/Inf and the handler ignores that error: not judged)',
+                    'attribute values of the trace-by-id document are strings by the shape of JSONSpanAttribute: "without loss" is '
+                    'demanded as: the text parses back to the stored bool / int64 / float64 (bit-identical, NaN as NaN) / bytes (base64)',
+                    'TagsV2 / ValuesV2 (encoding/json.Marshal of a whole value) and the protobuf branch of Trace are not covered']}
     finally:
         shutil.rmtree(sd, ignore_errors=True)
